@@ -1133,7 +1133,16 @@ class Interp:
                 return res
         if ref and ref.startswith('builtin:') and ref not in self.call_models and isinstance(getattr(_builtins, ref[8:], None), type) \
                 and issubclass(getattr(_builtins, ref[8:]), BaseException):
-            return Ref(ref)         # a new exception object: represented by its class
+            # a new exception object: represented by its class, and by the text of its message where that is known
+            msg_ = args[0] if args else None
+            if not isinstance(msg_, str) and n.args and not isinstance(n.args[0], ast.Starred):
+                saved_ = getattr(self, '_lenient_fstring', False)
+                self._lenient_fstring = True
+                try:
+                    msg_ = self._safe_ev(n.args[0])
+                finally:
+                    self._lenient_fstring = saved_
+            return MsgRef(ref, msg_) if isinstance(msg_, str) and not kwargs else Ref(ref)
         if ref == 'ext:inspect.signature' and ref not in self.call_models and len(args) == 1:
             return self._signature_of(args[0])
         if ref == 'ext:sys.exc_info' and ref not in self.call_models:
